@@ -934,7 +934,7 @@ func specBoolByte(b bool) int {
 //@     invariant forall a int, b int :: 0 <= a && a < b && b <= rangeindex ==> variables[a] != variables[b]
 
 //@ func NewListNode
-//@   property C01 C12 C13 C09 C07
+//@   property C01 C12 C13 C09 C07 C10
 //@   allocates 64*len(values) + 1024 when (forall i int :: 0 <= i && i < len(values) ==> typeis(values[i], ItemNode) && !typeis(values[i], emptyItemNode) && nvars(values[i]) == 0)
 //@   allocates_on_panic 64*len(values) + 1024 when (forall i int :: 0 <= i && i < len(values) ==> typeis(values[i], ItemNode) && !typeis(values[i], emptyItemNode) && nvars(values[i]) == 0)
 //@   ensures (forall i int :: 0 <= i && i < len(values) ==> typeis(values[i], ItemNode) && !typeis(values[i], emptyItemNode) && nvars(values[i]) == 0) ==> nvars(result) == 0
@@ -946,6 +946,7 @@ func specBoolByte(b bool) int {
 //@   ensures forall i int :: 0 <= i && i < len(values) ==> (typeis(values[i], ItemNode) && r.values[i] == values[i]) || (typeis(values[i], string) && typeis(r.values[i], emptyItemNode) && has(r.variables, sval(values[i])) && r.variables[sval(values[i])] == i)
 //@   ensures forall s string :: has(r.variables, s) ==> 0 <= r.variables[s] && r.variables[s] < len(values) && typeis(values[r.variables[s]], string) && sval(values[r.variables[s]]) == s
 //@   ensures (forall i int :: 0 <= i && i < len(values) ==> !typeis(values[i], string)) ==> len(r.variables) == 0
+//@   rac_ensures racEllipsisExpansionMatchesReference()
 //@   rac_ensures racListFillIsSubstitution()
 //@   loop 1
 //@     invariant (forall i int :: 0 <= i && i < len(values) ==> typeis(values[i], ItemNode) && !typeis(values[i], emptyItemNode) && nvars(values[i]) == 0) ==> (forall k int :: 0 <= k && k <= rangeindex ==> !typeis(nodeValues[k], emptyItemNode) && nvars(nodeValues[k]) == 0)
@@ -1198,6 +1199,31 @@ func specBoolByte(b bool) int {
 //@   property C16 C11
 //@   requires node.dataItem != nil
 //@   ensures fresh(result) && len(result) == nvars(node.dataItem)
+
+// Size: the number of elements an item holds (C16: "its reported size is the number of elements it prints").
+//@ func (*IntNode).Size
+//@   property C16 C15
+//@   ensures result == len(node.values)
+
+//@ func (*UintNode).Size
+//@   property C16 C15
+//@   ensures result == len(node.values)
+
+//@ func (*FloatNode).Size
+//@   property C16 C15
+//@   ensures result == len(node.values)
+
+//@ func (*BinaryNode).Size
+//@   property C16 C15
+//@   ensures result == len(node.values)
+
+//@ func (*BooleanNode).Size
+//@   property C16 C15
+//@   ensures result == len(node.values)
+
+//@ func (*ListNode).Size
+//@   property C16 C15
+//@   ensures result == len(node.values)
 
 //@ func getVariableNames
 //@   property C16 C07
@@ -1464,4 +1490,296 @@ func racASCIIBoundsSurviveListFills() bool {
 		}
 	})
 	return racASCIIBoundsOK
+}
+
+// ---------------------------------------------------------------------------------------------
+// C10: the index state that names the copies made by an ellipsis expansion (the expansion itself is bounded only, see
+// racEllipsisExpansionMatchesReference).
+
+//@ func newFillState
+//@   property C10
+//@   ensures fresh(result) && result.currentDimension == 0 && len(result.currentIndices) == 0 && result.ellipsisCount == 0
+//@   ensures result.multipleEllipsis == (remainingEllipsisCount > 1)
+
+//@ func (*fillState).growDimension
+//@   property C10
+//@   modifies state.currentDimension, state.currentIndices, state.currentIndices[0]
+//@   requires 0 <= state.currentDimension && state.currentDimension <= len(state.currentIndices) && state.currentDimension < 9223372036854775807
+//@   let d = old(state.currentDimension)
+//@   ensures state.currentDimension == d + 1 && state.currentDimension <= len(state.currentIndices) && state.currentIndices[d] == 0
+//@   ensures forall k int :: 0 <= k && k < d ==> state.currentIndices[k] == old(state.currentIndices[k])
+//@   ensures state.ellipsisCount == old(state.ellipsisCount) && state.multipleEllipsis == old(state.multipleEllipsis)
+
+//@ func (*fillState).exitDimension
+//@   property C10
+//@   modifies state.currentDimension
+//@   requires 1 <= state.currentDimension
+//@   ensures state.currentDimension == old(state.currentDimension) - 1
+
+//@ func (*fillState).getCurrentDimensionIndex
+//@   property C10
+//@   requires 1 <= state.currentDimension && state.currentDimension <= len(state.currentIndices)
+//@   ensures result == state.currentIndices[state.currentDimension-1]
+
+//@ func (*fillState).growIndex
+//@   property C10
+//@   modifies state.currentIndices[0]
+//@   requires 1 <= state.currentDimension && state.currentDimension <= len(state.currentIndices) && state.currentIndices[state.currentDimension-1] < 9223372036854775807
+//@   let d = state.currentDimension
+//@   ensures state.currentIndices[d-1] == old(state.currentIndices[d-1]) + 1
+//@   ensures forall k int :: 0 <= k && k < len(state.currentIndices) && k != d-1 ==> state.currentIndices[k] == old(state.currentIndices[k])
+
+// ---------------------------------------------------------------------------------------------
+// C10 (bounded only): ellipsis expansion against an independent reference expander written from the ListNode documentation and
+// the property statement: filling an ellipsis with n repeats the items before it n+1 times and keeps the items after it once;
+// for n > 0 the names in copy j get the suffix [j] after the suffixes of enclosing expanded ellipses; nested ellipses are
+// expanded in every copy; unfilled ellipses remain and are renumbered in order of appearance ("..." when only one remains).
+
+type racT struct {
+	kind   string // list, var, ell, u1v, asciiv, const
+	name   string
+	lo, hi int
+	kids   []racT
+}
+
+func racBuild(t racT) interface{} {
+	switch t.kind {
+	case "list":
+		var args []interface{}
+		for _, k := range t.kids {
+			args = append(args, racBuild(k))
+		}
+		return NewListNode(args...)
+	case "var", "ell":
+		return t.name
+	case "u1v":
+		return NewUintNode(1, 7, t.name)
+	case "asciiv":
+		return NewASCIINodeVariable(t.name, t.lo, t.hi)
+	}
+	return NewUintNode(1, 5)
+}
+
+// racExpand: the reference. Remaining ellipses get the placeholder name "?" and are numbered afterwards.
+func racExpand(t racT, counts map[string]int, suffix string) racT {
+	if t.kind != "list" {
+		if t.kind == "var" || t.kind == "u1v" || t.kind == "asciiv" {
+			t.name += suffix
+		}
+		return t
+	}
+	e := -1
+	for i, k := range t.kids {
+		if k.kind == "ell" {
+			e = i
+		}
+	}
+	out := racT{kind: "list"}
+	if e >= 0 {
+		if n, ok := counts[t.kids[e].name]; ok {
+			for j := 0; j <= n; j++ {
+				sfx := suffix
+				if n > 0 {
+					sfx = fmt.Sprintf("%s[%d]", suffix, j)
+				}
+				for _, k := range t.kids[:e] {
+					out.kids = append(out.kids, racExpand(k, counts, sfx))
+				}
+			}
+			for _, k := range t.kids[e+1:] {
+				out.kids = append(out.kids, racExpand(k, counts, suffix))
+			}
+			return out
+		}
+	}
+	for _, k := range t.kids {
+		if k.kind == "ell" {
+			out.kids = append(out.kids, racT{kind: "ell", name: "?"})
+		} else {
+			out.kids = append(out.kids, racExpand(k, counts, suffix))
+		}
+	}
+	return out
+}
+
+func racCountEll(t racT) int {
+	n := 0
+	if t.kind == "ell" {
+		n = 1
+	}
+	for _, k := range t.kids {
+		n += racCountEll(k)
+	}
+	return n
+}
+
+func racNumberEll(t *racT, next *int, many bool) {
+	if t.kind == "ell" {
+		if many {
+			t.name = fmt.Sprintf("...[%d]", *next)
+		} else {
+			t.name = "..."
+		}
+		*next++
+	}
+	for i := range t.kids {
+		racNumberEll(&t.kids[i], next, many)
+	}
+}
+
+func racEllNames(t racT, out *[]string) {
+	if t.kind == "ell" {
+		*out = append(*out, t.name)
+	}
+	for _, k := range t.kids {
+		racEllNames(k, out)
+	}
+}
+
+func racTemplates() []racT {
+	name := 0
+	fresh := func(kind string) racT {
+		name++
+		switch kind {
+		case "var":
+			return racT{kind: "var", name: fmt.Sprintf("nv%d", name)}
+		case "u1v":
+			return racT{kind: "u1v", name: fmt.Sprintf("uv%d", name)}
+		case "asciiv":
+			return racT{kind: "asciiv", name: fmt.Sprintf("sv%d", name), lo: 1, hi: 3}
+		}
+		return racT{kind: "const"}
+	}
+	ell := func() racT { return racT{kind: "ell"} }
+	list := func(k ...racT) racT { return racT{kind: "list", kids: k} }
+	// item makers: leaves and inner lists (with and without an ellipsis, with an item after it)
+	makers := []func() racT{
+		func() racT { return fresh("var") },
+		func() racT { return fresh("u1v") },
+		func() racT { return fresh("asciiv") },
+		func() racT { return fresh("const") },
+		func() racT { return list(fresh("u1v"), ell()) },
+		func() racT { return list(fresh("var"), ell(), fresh("asciiv")) },
+		func() racT { return list(fresh("var"), fresh("u1v")) },
+		func() racT { return list(fresh("const"), fresh("var"), ell()) },
+		func() racT { return list(list(fresh("u1v"), ell()), ell(), fresh("var")) },
+	}
+	var out []racT
+	for _, a := range makers {
+		out = append(out, list(a(), ell()))
+		for _, b := range makers {
+			out = append(out, list(a(), ell(), b()), list(a(), b(), ell()), list(a(), b()))
+		}
+	}
+	out = append(out, list(list(list(list(fresh("u1v"), ell()), ell()), ell(), fresh("var")), ell()))
+	// name the ellipses of each template in order of appearance, as the SML parser does
+	for i := range out {
+		next := 0
+		racNumberEll(&out[i], &next, true)
+	}
+	return out
+}
+
+var (
+	racEllipsisOnce sync.Once
+	racEllipsisOK   bool
+)
+
+func racEllipsisExpansionMatchesReference() bool {
+	racEllipsisOnce.Do(func() {
+		racEllipsisOK = true
+		fail := func(format string, a ...interface{}) {
+			racEllipsisOK = false
+			fmt.Printf("GOVC-NOTE racEllipsisExpansionMatchesReference: "+format+"\n", a...)
+		}
+		defer func() {
+			if r := recover(); r != nil {
+				fail("panic %v", r)
+			}
+		}()
+		fills := 0
+		for _, t := range racTemplates() {
+			var ells []string
+			racEllNames(t, &ells)
+			if len(ells) == 0 {
+				continue
+			}
+			tmpl := racBuild(t).(ItemNode)
+			// every assignment of {unfilled, 0, 1, 2} to the ellipses, at least one filled
+			total := 1
+			for range ells {
+				total *= 4
+			}
+			for code := 1; code < total; code++ {
+				counts := map[string]int{}
+				fill := map[string]interface{}{}
+				c := code
+				for _, e := range ells {
+					if v := c % 4; v > 0 {
+						counts[e] = v - 1
+						fill[e] = v - 1
+					}
+					c /= 4
+				}
+				if len(counts) == 0 {
+					continue
+				}
+				want := racExpand(t, counts, "")
+				next := 0
+				racNumberEll(&want, &next, racCountEll(want) > 1)
+				wantItem := racBuild(want).(ItemNode)
+				got := tmpl.FillVariables(fill)
+				fills++
+				// remaining ellipses: numbered ...[0], ...[1], ... in order of appearance; a single remaining one may also be called "..."
+				gv, wv := got.Variables(), wantItem.Variables()
+				same := len(gv) == len(wv)
+				k := 0
+				for i := 0; same && i < len(gv); i++ {
+					if strings.HasPrefix(wv[i], "...") {
+						if !(gv[i] == fmt.Sprintf("...[%d]", k) || (gv[i] == "..." && racCountEll(want) == 1)) {
+							same = false
+						}
+						k++
+					} else if gv[i] != wv[i] {
+						same = false
+					}
+				}
+				if fmt.Sprint(got) != fmt.Sprint(wantItem) || !same || got.Size() != wantItem.Size() {
+					fail("%q filled with %v gives %q %v, the reference gives %q %v", fmt.Sprint(tmpl), fill, fmt.Sprint(got), got.Variables(), fmt.Sprint(wantItem), wantItem.Variables())
+					return
+				}
+				// every generated name is unique and can be filled on its own
+				seen := map[string]bool{}
+				for _, v := range got.Variables() {
+					if seen[v] {
+						fail("%q filled with %v lists %q twice", fmt.Sprint(tmpl), fill, v)
+						return
+					}
+					seen[v] = true
+				}
+				if code%7 == 0 {
+					for _, v := range got.Variables() {
+						var val interface{}
+						switch {
+						case strings.HasPrefix(v, "..."):
+							continue
+						case strings.HasPrefix(v, "nv"):
+							val = NewBooleanNode(true)
+						case strings.HasPrefix(v, "uv"):
+							val = 1
+						default:
+							val = "ab"
+						}
+						after := got.FillVariables(map[string]interface{}{v: val}).Variables()
+						if len(after) != len(got.Variables())-1 {
+							fail("%q: filling the generated name %q alone leaves %v", fmt.Sprint(got), v, after)
+							return
+						}
+					}
+				}
+			}
+		}
+		fmt.Println("GOVC-COUNT racEllipsisExpansionMatchesReference ellipsis fills compared with the reference expander:", fills)
+	})
+	return racEllipsisOK
 }
